@@ -22,6 +22,8 @@ pub enum ReaderCase {
     CorruptWritten { graph: c14::RtCase, spec: u8, pos: u32, kind: u8, ch: u8 },
     /// literal text (enumerated fault block, fuzzer findings)
     Raw { text: String, spec: u8 },
+    /// an optional grammar fault followed by 2..=5 point corruptions (pos, kind, ch)
+    MultiCorrupt { doc: DocAst, spec: u8, fault: Option<Fault>, points: Vec<(u32, u8, u8)> },
 }
 
 pub struct C19;
@@ -91,7 +93,7 @@ impl Prop for C19 {
         "fault_enumeration"
     }
     fn rule(&self) -> String {
-        "G1: documents serialised by the harness's own XML writer from an AST of a valid GraphML subset (attribute order and quoting, extra attributes, comments, PIs, whitespace, <edge/> vs <edge></edge>, custom or undeclared weight key, key with <default>, unknown elements, unrelated <data>), read under a generated GraphSpecs index: the result must equal the C01 model applied to the document's node and edge elements (or its error kind) with the declared directedness. G2: the same AST with one of 24 injected faults; a missing id/source/target/edgedefault or an invalid edgedefault must be refused (any error), the others only totality; a valid document may be refused (the property allows an error for any input) but if a graph is returned it must be the expected one. G3: single-point corruptions (delete, duplicate, truncate, replace by one of 12 characters; valid UTF-8) of G1 documents and of write_graphml_string output, at every position x every kind for 3 fixed short documents (exhaustive fault block) and sampled otherwise. Every Ok graph from any generator must pass the C02 coherence check and the C03 index check. Non-trivial = the document reaches the element loop (contains '<graph' with attributes) and exercises >= 1 fault or corruption, or >= 1 weighted edge; distinct = distinct serialised case.".into()
+        "G1: documents serialised by the harness's own XML writer from an AST of a valid GraphML subset (attribute order and quoting, extra attributes, comments, PIs, whitespace, <edge/> vs <edge></edge>, custom or undeclared weight key, key with <default>, unknown elements, unrelated <data>), read under a generated GraphSpecs index: the result must equal the C01 model applied to the document's node and edge elements (or its error kind) with the declared directedness. G2: the same AST with one of 24 injected faults; a missing id/source/target/edgedefault or an invalid edgedefault must be refused (any error), the others only totality; a valid document may be refused (the property allows an error for any input) but if a graph is returned it must be the expected one. G3: single-point corruptions (delete, duplicate, truncate, replace by one of 12 characters; valid UTF-8) of G1 documents and of write_graphml_string output, at every position x every kind for 3 fixed short documents (exhaustive fault block) and sampled otherwise; G4: an optional fault followed by 2..=5 point corruptions. Every Ok graph from any generator must pass the C02 coherence check and the C03 index check. Non-trivial = the document reaches the element loop (contains '<graph' with attributes) and exercises >= 1 fault or corruption, or >= 1 weighted edge; distinct = distinct serialised case.".into()
     }
     fn assumptions(&self) -> Vec<String> {
         vec![
@@ -124,6 +126,7 @@ impl Prop for C19 {
             4 => (doc(), 0u8..96, fault()).prop_map(|(doc, spec, f)| ReaderCase::Ast { doc, spec, fault: Some(f) }),
             5 => (doc(), 0u8..96, any::<u32>(), 0u8..4, 0u8..12).prop_map(|(doc, spec, pos, kind, ch)| ReaderCase::CorruptAst { doc, spec, pos, kind, ch }),
             3 => (rt, 0u8..96, any::<u32>(), 0u8..4, 0u8..12).prop_map(|(graph, spec, pos, kind, ch)| ReaderCase::CorruptWritten { graph, spec, pos, kind, ch }),
+            3 => (doc(), 0u8..96, proptest::option::of(fault()), proptest::collection::vec((any::<u32>(), 0u8..4, 0u8..12), 2..=5)).prop_map(|(doc, spec, fault, points)| ReaderCase::MultiCorrupt { doc, spec, fault, points }),
         ]
         .boxed()
     }
@@ -152,6 +155,18 @@ impl Prop for C19 {
                 let text = corrupt(&base, *pos as usize, *kind, REPLACEMENTS[*ch as usize % REPLACEMENTS.len()]);
                 read_total("corrupted_grammar_document", &text, *spec, &mut out);
                 out.class(format!("corruption_kind_{}", kind % 4));
+                out.nontrivial = text.contains("<graph ");
+            }
+            ReaderCase::MultiCorrupt { doc, spec, fault, points } => {
+                let fault = fault.as_ref().filter(|f| fault_applies(doc, f));
+                let mut text = write_doc(doc, fault);
+                for (pos, kind, ch) in points {
+                    // (truncation only as the last step, or nothing is left to corrupt)
+                    let kind = if kind % 4 == 2 && (pos % 3 != 0) { 0 } else { *kind };
+                    text = corrupt(&text, *pos as usize, kind, REPLACEMENTS[*ch as usize % REPLACEMENTS.len()]);
+                }
+                read_total("multi_point_corruption", &text, *spec, &mut out);
+                out.class(format!("multi_point_corruption_{}", points.len()));
                 out.nontrivial = text.contains("<graph ");
             }
             ReaderCase::CorruptWritten { graph, spec, pos, kind, ch } => {
